@@ -22,7 +22,7 @@ POSTFIX = {
     "broadcasted": ".broadcasted()", "transformed": ".element_transformed(std::declval<int (*)(int const&)>())",
     "begin": ".begin()", "end": ".end()", "cbegin": ".cbegin()", "cend": ".cend()", "elements": ".elements()", "home": ".home()",
     "reindexed": ".reindexed(1)", "reindexed2": ".reindexed(1, 1)", "blocked": ".blocked(0, 1)", "stenciled": ".stenciled({0, 1})", "range": ".range({0, 1})",
-    "sliced3": ".sliced(0, 1, 1)",
+    "sliced3": ".sliced(0, 1, 1)", "transformed_ref": ".element_transformed(std::declval<int& (*)(int&)>())",
     "itidx": "[0]", "ebegin": ".begin()", "eidx": "[0]", "efront": ".front()", "eback": ".back()", "cidx": "[0]",
 }
 
@@ -74,6 +74,7 @@ def tu_source(paths):
            "namespace multi = boost::multi;",
            "using AR1 = multi::array<int, 1>; using AR2 = multi::array<int, 2>; using AR3 = multi::array<int, 3>; using AR4 = multi::array<int, 4>; using AR5 = multi::array<int, 5>;",
            "template<class X> using rebuilt_t = multi::subarray<int, std::decay_t<X>::rank_v>;",
+           "using MV1 = multi::subarray<int, 1>; using MV2 = multi::subarray<int, 2>; using MV3 = multi::subarray<int, 3>; using MV4 = multi::subarray<int, 4>; using MV5 = multi::subarray<int, 5>;",
            "#define OBS(NAME, EXPR) template<class S, class = void> struct NAME { static constexpr int v = -1; }; "
            "template<class S> struct NAME<S, std::void_t<decltype(EXPR)>> { static constexpr int v = std::is_assignable_v<decltype(EXPR), int> ? 1 : 0; };",
            "#define OBSA(NAME, EXPR, FROM) template<class S, class = void> struct NAME { static constexpr int v = -1; }; "
@@ -90,6 +91,9 @@ def tu_source(paths):
         if rec["cat"] == "view" and rec["dim"] >= 1:
             out.append("OBSA(P%d_a, %s, AR%d const&)" % (pid, e, rec["dim"]))
             names.append("P%d_a" % pid)
+            # is swap(mutable temporary view, x) accepted?  (-1: rejected)
+            out.append("OBS(P%d_s, swap(std::declval<MV%d&&>(), %s))" % (pid, rec["dim"], e))
+            names.append("P%d_s" % pid)
         fmt = "%d" + " %d" * len(names)
         main.append('  std::printf("%s\\n", %d, %s);' % (fmt, pid, ", ".join("%s<%s>::v" % (n, st) for n in names)))
     main.append("  return 0;\n}")
